@@ -270,6 +270,7 @@ package check
 //@   ensures[C03] err-propagates: faulted && !old(faulted) ==> lastsent(resultCh).Err != nil || lastsent(resultCh).Membership == checkgroup.IsMember
 //@   loop 1 invariant faulted == old(faulted) && !gerr(g)
 //@   loop 2 invariant !gerr(g)
+//@   ensures[C01] no-parent-means-not-a-member: (gadds(g) == 0 && !gerr(g) && !gmem(g)) ==> lastsent(resultCh).Err == nil && lastsent(resultCh).Membership == checkgroup.NotMember
 //@   loop 2 step[C01] every-listed-subject-set-gets-a-sub-check: istype(t.Subject, *relationtuple.SubjectSet) ==> gadds(g) == athead(gadds(g)) + 1
 
 // =====================================================================================
